@@ -20,6 +20,14 @@ pub fn gen(r: &mut Rng, thorough: bool) -> String {
 }
 
 fn gen_one(r: &mut Rng, _thorough: bool) -> String {
+    if r.chance(1, 10) {
+        // hooked connect: one scripted kernel answer, then at most one wait on the (connected) socket
+        let blocking = if r.chance(1, 2) { 1 } else { 0 };
+        let limit_us = *r.pick(&[0u64, 0, 1, 500, 9_999, 10_000, 25_000, 1_000_000]);
+        let first = *r.pick(&["m0", "again", "again", "intr", "intr", "e111", "e110", "e114", "e11"]);
+        let wait = *r.pick(&["full", "fail", "ev0", "ev1000", "ev20000000"]);
+        return format!("connect {blocking} {limit_us} 1 ; calls: {first} ; waits: {wait}");
+    }
     let class = r.below(4);
     let call = *r.pick(match class { 0 => CALLS_R_BUF, 1 => CALLS_W_BUF, 2 => CALLS_R_VEC, _ => CALLS_W_VEC });
     let blocking = if r.chance(3, 4) { 1 } else { 0 };
@@ -116,6 +124,19 @@ fn iov_ranges(iov: *const iovec, cnt: usize) -> Vec<(usize, usize)> {
     (0..cnt).map(|i| unsafe { let v = *iov.add(i); (v.iov_base as usize, v.iov_len) }).collect()
 }
 
+extern "C" fn k_connect(_fd: c_int, _a: *const sockaddr, _l: socklen_t) -> c_int {
+    KS.with(|ks| {
+        let mut k = ks.borrow_mut();
+        k.reqs.push("c#1".to_string());
+        let tok = if k.ci < k.calls.len() { k.calls[k.ci].clone() } else { "e104".to_string() };
+        k.ci += 1;
+        let set_errno = |e: c_int| unsafe { *libc::__errno_location() = e };
+        if tok == "again" { set_errno(libc::EINPROGRESS); k.lasterr = libc::EINPROGRESS; return -1; }
+        if tok == "intr" { set_errno(libc::EINTR); k.lasterr = libc::EINTR; return -1; }
+        if let Some(e) = tok.strip_prefix('e') { let e: c_int = e.parse().unwrap(); set_errno(e); k.lasterr = e; return -1; }
+        0
+    })
+}
 extern "C" fn k_recv(_fd: c_int, buf: *mut c_void, len: size_t, _fl: c_int) -> ssize_t { kernel(&[(buf as usize, len)], 1) }
 extern "C" fn k_read(_fd: c_int, buf: *mut c_void, len: size_t) -> ssize_t { kernel(&[(buf as usize, len)], 1) }
 extern "C" fn k_recvfrom(_fd: c_int, buf: *mut c_void, len: size_t, _fl: c_int, _a: *mut sockaddr, _l: *mut socklen_t) -> ssize_t { kernel(&[(buf as usize, len)], 1) }
@@ -220,6 +241,12 @@ fn exec_one(body: &str, sv: [c_int; 2], emit: &mut dyn FnMut(&str)) {
         let (b0, l0) = segs[0];
         use open_coroutine_core::syscall as sc;
         let ret: ssize_t = match call {
+            "connect" => {
+                let f: extern "C" fn(c_int, *const sockaddr, socklen_t) -> c_int = k_connect;
+                let mut addr: libc::sockaddr_un = std::mem::zeroed();
+                addr.sun_family = libc::AF_UNIX as u16;
+                sc::connect(Some(&f), fd, (&addr as *const libc::sockaddr_un).cast(), std::mem::size_of::<libc::sockaddr_un>() as u32) as ssize_t
+            }
             "recv" => { let f: extern "C" fn(c_int, *mut c_void, size_t, c_int) -> ssize_t = k_recv; sc::recv(Some(&f), fd, b0 as *mut c_void, l0, 0) }
             "read" => { let f: extern "C" fn(c_int, *mut c_void, size_t) -> ssize_t = k_read; sc::read(Some(&f), fd, b0 as *mut c_void, l0) }
             "recvfrom" => { let f: extern "C" fn(c_int, *mut c_void, size_t, c_int, *mut sockaddr, *mut socklen_t) -> ssize_t = k_recvfrom; sc::recvfrom(Some(&f), fd, b0 as *mut c_void, l0, 0, std::ptr::null_mut(), std::ptr::null_mut()) }
